@@ -260,6 +260,55 @@ func runC07(c *core.Ctx) {
 		}
 	})
 
+	// (2b) header transplant: a genuine T body under U's packet type / FMT. Judged only when the
+	// library's own U decoder accepts the frame (so it is a U packet in the library's own eyes):
+	// then T's decoder must reject it. This reaches type checks that only a body satisfying all of
+	// T's other checks can get past.
+	ptfmt := map[gen.Kind][2]int{gen.SR: {200, -1}, gen.RR: {201, -1}, gen.SDES: {202, -1}, gen.BYE: {203, -1}, gen.APP: {204, -1},
+		gen.NACK: {205, 1}, gen.RRR: {205, 5}, gen.TWCC: {205, 15}, gen.CCFB: {205, 11}, gen.PLI: {206, 1}, gen.SLI: {205, 2}, gen.REMB: {206, 15}, gen.FIR: {206, 4}, gen.XR: {207, -1}}
+	c.Section("transplant", nT*nT*c.N(400, 20000), func(cs *core.Case) {
+		r := cs.R
+		T := gen.Registered[cs.Idx%nT]
+		U := gen.Registered[cs.Idx/nT%nT]
+		if T == U {
+			return
+		}
+		v := gen.Packet(r, T, gen.Opts{NoBig: true, Small: r.Chance(1, 2)})
+		dialect := ref.Lib
+		e, err := ref.Encode(v, dialect)
+		if err != nil {
+			return
+		}
+		in := cloneBytes(e.B)
+		in[1] = byte(ptfmt[U][0])
+		if f := ptfmt[U][1]; f >= 0 {
+			in[0] = in[0]&0xE0 | byte(f)
+		} else if r.Bool() {
+			in[0] = in[0]&0xE0 | byte(r.Intn(32))
+		}
+		if _, uerr, upan := gUnmarshalOwn(U, cloneBytes(in)); upan != "" || uerr != nil {
+			cs.Count("transplant-not-a-U")
+			return
+		}
+		_, terr, tpan := gUnmarshalOwn(T, cloneBytes(in))
+		cs.Eval(2)
+		cs.Distinct(core.Digest([]byte("tp"), []byte(T.String()), in))
+		cs.Count("transplant/" + T.String())
+		if tpan != "" {
+			cs.Fail("panic/Unmarshal", core.W{"decoder": T.String(), "input_hex": mon.Hex(in, 200), "panic": tpan})
+			return
+		}
+		var kfs []string
+		if T == gen.CCFB && in[1] == 205 {
+			kfs = append(kfs, "KF4")
+		}
+		if T == gen.SLI && in[1] == 205 && in[0]&0x1F == 2 {
+			return
+		}
+		cs.Check(terr != nil, "foreign/"+T.String()+"-accepts/transplanted-"+U.String(), func() core.W {
+			return core.W{"decoder": T.String(), "header_of": U.String(), "input_hex": mon.Hex(in, 200), "note": "the frame carries " + U.String() + "'s packet type/FMT and is accepted by the library's own " + U.String() + " decoder"}
+		}, kfs...)
+	})
 	// (3) self-dispatch
 	c.Section("self-dispatch", c.N(150000, 12000000), func(cs *core.Case) {
 		k := gen.Registered[cs.Idx%nT]
